@@ -497,6 +497,74 @@ macro_rules! clone_plain {
     };
 }
 
+// zero-sized drop-tracked elements (size 0, but drop glue): pointer arithmetic degenerates, the ledger is a counter
+// @gen macro=zst_ops name=c03_zst_ops props=C03,C04,C08 quick=U0,0;U1,1;U4,4 thorough=U3,3;U7,7
+macro_rules! zst_ops {
+    ($name:ident, $N:ty, $n:expr) => {
+        #[kani::proof]
+        #[kani::unwind(12)]
+        fn $name() {
+            let mk_arr = || -> GenericArray<Dz, $N> { GenericArray::from_array(core::array::from_fn::<Dz, $n, _>(|_| mkz())) };
+            let which: u8 = kani::any();
+            kani::assume(which < 5);
+            reset_monitor();
+            let mut calls = 0usize;
+            if which == 0 {
+                let a = mk_arr();
+                let out: GenericArray<Dz, $N> = a.map(|z| {
+                    unwind_point(calls, 1);
+                    calls += 1;
+                    drop(z);
+                    mkz()
+                });
+                kani::assert(calls == $n && unsafe { DROPS_Z } == $n && unsafe { LIVE_Z } == $n, "C03.map(ZST): every input dropped once (by the closure), every result live in the output");
+                drop(out);
+            } else if which == 1 {
+                let (a, b) = (mk_arr(), mk_arr());
+                let out: GenericArray<Dz, $N> = a.zip(b, |x, y| {
+                    unwind_point(calls, 2);
+                    calls += 1;
+                    drop(x);
+                    y
+                });
+                kani::assert(calls == $n && unsafe { DROPS_Z } == $n && unsafe { LIVE_Z } == $n, "C03.zip(ZST): one operand's elements dropped by the closure, the other's moved into the output");
+                drop(out);
+            } else if which == 2 {
+                let a = mk_arr();
+                let r = a.fold(0usize, |acc, z| {
+                    kani::assert(n_consumers() == 1 && consumer_pos(0) == calls + 1, "C04.fold(ZST) unwind@closure: consumer position excludes exactly the elements handed out");
+                    calls += 1;
+                    core::mem::forget(z);
+                    acc + 1
+                });
+                kani::assert(r == $n && unsafe { DROPS_Z } == 0 && unsafe { LIVE_Z } == $n, "C03.fold(ZST): every element handed to the closure, none dropped by fold itself");
+                unsafe { LIVE_Z = 0 };
+            } else if which == 3 {
+                let g: GenericArray<Dz, $N> = GenericArray::generate(|i| {
+                    kani::assert(i == calls && n_builders() == 1 && builder_pos(0) == i, "C08.generate(ZST): ascending indices, builder guards the results stored so far");
+                    calls += 1;
+                    mkz()
+                });
+                kani::assert(calls == $n && unsafe { LIVE_Z } == $n, "C08.generate(ZST): exactly N calls, N live results");
+                drop(g);
+            } else {
+                let mut it = mk_arr().into_iter();
+                let k: usize = kani::any();
+                let x = it.nth(k);
+                let skipped = if k < $n { k } else { $n };
+                kani::assert(unsafe { DROPS_Z } == skipped && x.is_some() == (k < $n), "C03.nth(ZST): exactly the skipped elements dropped");
+                let y = it.next_back();
+                kani::assert(it.len() == $n - skipped - x.is_some() as usize - y.is_some() as usize, "C06.len(ZST): counts what is left");
+                drop(it);
+                drop(x);
+                drop(y);
+            }
+            kani::assert(unsafe { LIVE_Z } == 0, "C03(ZST): in the end every element has been dropped exactly once");
+            kani::cover!(true, "end reachable");
+        }
+    };
+}
+
 // @gen macro=clone_h name=c08_clone props=C03,C04,C08 quick=U0,0;U1,1;U4,4 thorough=U3,3;U7,7
 macro_rules! clone_h {
     ($name:ident, $N:ty, $n:expr) => {
